@@ -79,9 +79,11 @@ VProject(e) ==
        \cup (IF DtInv(e.r.ok.dst) THEN {} ELSE {"C14-dtinv"})
   ELSE IF Has(e.r, "err") /\ e.r.err = "Construct" THEN {}       \* the source date-time itself could not be built
   ELSE Judge(e.r, lt)
+\* the instant of a comparison operand: given directly, or by fields and a local time type (second 60 = second 0 of the next minute)
+OperandT(x) == IF Has(x, "y") THEN CDSToW(CAddSec(UnixOf(x.y, x.mo, x.d, x.h, x.mi, x.s), -x.type.off)) ELSE x.t
 VDtCmp(e) ==
   IF ~Has(e.r, "ok") THEN NoPanic(e.r)
-  ELSE LET c == InstCmp(e.a.a.t, e.a.a.ns, e.a.b.t, e.a.b.ns) IN
+  ELSE LET c == InstCmp(OperandT(e.a.a), e.a.a.ns, OperandT(e.a.b), e.a.b.ns) IN
        IF e.r.ok.ord = c /\ e.r.ok.eq = (IF c = 0 THEN 1 ELSE 0) THEN {} ELSE {"C14-comparison-not-by-instant"}
 
 \* ---- C11 ----
